@@ -224,6 +224,30 @@ def judgeReadLT : P Verdict := do
       pure { prop := p, corr := c, bit := some c, msg := if p && c then "" else s!"model={showCSM mm}" }
   | s, _ => throw s!"bad status {s}"
 
+/-- `C19 readnames <recs> <csvok> | ok n (hexname idx)* / err / panic`: the peer list is exactly the first fields,
+    duplicate-free, and the name → index map is its inverse. -/
+def judgeReadNames : P Verdict := do
+  let recs ← recordsP
+  let csvOK ← flag
+  expect "|"
+  let st ← tok
+  let model := if csvOK then readPeerNames recs [] else none
+  match st, model with
+  | "panic", _ => pure { prop := false, corr := false, msg := "ReadPeerNamesFromCsv panicked" }
+  | "err", none => pure { prop := true, corr := true, bit := some true }
+  | "err", some _ => pure { prop := false, corr := false, msg := "reader refused a peer list the model accepts" }
+  | "ok", m =>
+    let n ← nat
+    let got ← rep n (do let nm := unhex (← tok); let i ← nat; pure (nm, i))
+    let firsts := recs.map fun r => (r.head?.map (·.raw)).getD ""
+    let bij := (got.zipIdx.all fun ((_, i), k) => i == k) && got.map (·.1) == firsts && distinctBy firsts &&
+      recs.all (fun r => !r.isEmpty)
+    match m with
+    | none => pure { prop := false, corr := false, msg := "reader accepted a peer list with a duplicate / empty record" }
+    | some ms => pure { prop := bij, corr := got.map (·.1) == ms, bit := some (got.map (·.1) == ms),
+                        msg := if bij then "" else "peer list is not a bijection onto 0..n-1" }
+  | s, _ => throw s!"bad status {s}"
+
 /-- `C15 oapicsv <recs> <csvok> | <status>`: a `file:` CSV body of /compute; unusable files are refused with 400. -/
 def judgeOapiCsv : P Verdict := do
   let recs ← recordsP
